@@ -4,7 +4,7 @@
     [next P d c = Some d'] means: the replica is still alive after applying c to d. *)
 From stdpp Require Import gmap.
 From Drummer.Model Require Import DB.
-From Drummer.Proofs Require Import DBProofs.
+From Drummer.Proofs Require Import DBProofs DBKVTickProofs.
 Local Open Scope N_scope.
 
 (* a finalized record never changes, whatever is applied later *)
@@ -101,3 +101,23 @@ Example ex_run : exists d, run P0 [CShard 0 (mkSD 1 [11;12;13] 3); CKV el1; CKV 
   d_kv d !! key_election = Some el2 /\ d_kv d !! key_bootstrapped = Some boot /\
   d_shards d !! 2 = None /\ d_shards d !! 1 = Some (mkSD 1 [11;12;13] 3).
 Proof. eexists. split; [vm_compute; reflexivity|]. vm_compute. repeat split; reflexivity. Qed.
+
+(** The record Tick is inert for acceptance: the result code of a KV write is the same whatever Tick the
+    writer presents and whatever Ticks the stored records carry (only key, value-emptiness, instance ids and
+    the finalized flag decide); an accepted write stores exactly the presented record. *)
+Theorem C13_code_ignores_ticks : forall P g d1 d2 kv t,
+  reticked g d1 d2 ->
+  res_code (db_step P d2 (CKV (with_tick kv t))) = res_code (db_step P d1 (CKV kv)).
+Proof. exact kv_code_ignores_ticks. Qed.
+Print Assumptions C13_code_ignores_ticks.
+
+Theorem C13_accepted_stores_presented : forall P d kv d',
+  db_step P d (CKV kv) = SOk d' 0 -> d_kv d' !! kv_key kv = Some kv.
+Proof. exact kv_accepted_stores_presented. Qed.
+Print Assumptions C13_accepted_stores_presented.
+
+(* non-vacuity: a rejected campaign stays rejected when its Tick is 2^40 ahead of the holder's *)
+Example ex_ticks : exists d, (run P0 [CKV el1] = Live d) /\
+  reticked (λ _, 0) d (set_kv d ((λ r, with_tick r 0) <$> d_kv d)) /\
+  res_code (db_step P0 d (CKV (with_tick (mkKVR key_election 7 33 3 22 false) 1099511627776))) = Some (Some 2).
+Proof. eexists. split; [vm_compute; reflexivity|]. split; [split; reflexivity|]. vm_compute. reflexivity. Qed.
